@@ -32,6 +32,21 @@ def gen_history(r, hid, max_lifetimes=3, max_ops=12, panic_prob=0.25):
     decl = ",".join(ts + FAKES)
     return f"{hid} {decl} " + "|".join(",".join(o) if o else "-" for o in lifetimes), lifetimes
 
+def gen_counted_history(r, hid, max_lifetimes=3):
+    """histories mixing plain and counted fakes (met and unmet budgets) on targets drawn WITH repetition;
+    values are only sampled at scope exit (a boundary call would consume a budget)"""
+    ts = r.sample(["r0", "r1", "r2", "r3"], r.randint(1, 3))
+    lts = []
+    for _ in range(r.randint(1, max_lifetimes)):
+        ops = []; sites = [0, 1, 2, 3, 4, 5]; r.shuffle(sites)
+        for _ in range(r.randint(1, 6)):
+            t = r.choice(ts); c = r.random()
+            if c < 0.35 and sites: ops.append(f"T:{t}:{sites.pop()}")
+            elif c < 0.7: ops.append(f"I:{t}:{r.choice(['raw', 'clo', 'fake', 'unc'])}:{r.randint(0, 3)}")
+            else: ops.append(f"C:{t}")
+        lts.append(ops)
+    return f"{hid} {','.join(ts + FAKES)} " + "|".join(",".join(o) for o in lts), lts
+
 def run_hist(exe, lines, fork=True, nodiff=False, timeout=900, shards=None, novals=False):
     """shard the histories over processes; returns parsed observations"""
     shards = shards or min(vlib.NPROC, max(1, len(lines) // 8))
@@ -204,7 +219,7 @@ def judge(hid, line, lifetimes, h, mline, synth_val, project="full"):
             for t in targets:
                 want = exp.get(t, origvals.get(t))
                 if r.vals.get(t) != want:
-                    J["c02"].append(dict(case=case, what=f"while installed, at L{r.l} {r.tag}: {t}(7) = {r.vals.get(t)}, the latest installation says {want}"))
+                    J["c02"].append(dict(case=case, unnamed=(t not in exp), what=f"while installed, at L{r.l} {r.tag}: {t}(7) = {r.vals.get(t)}, " + ("the latest installation says" if t in exp else "it was never named and originally returns") + f" {want}"))
         elif J["crashed"] and r is recs[-1]:
             J["c02"].append(dict(case=case, what=f"process died ({h['child']}) calling the targets at L{r.l} {r.tag}"))
             J["c01"].append(dict(case=case, what=f"process died ({h['child']}) calling a faked function at L{r.l} {r.tag}"))
@@ -222,6 +237,8 @@ def judge(hid, line, lifetimes, h, mline, synth_val, project="full"):
             J["c05"].append(dict(case=case, what=f"{extra['panics']} panics raised in lifetime {li}"))
         if extra.get("lock") == "timeout":
             J["c05"].append(dict(case=case, what=f"after lifetime {li} another thread could not create an injector within 3 s"))
+        if extra.get("lock") == "waiter-failed":
+            J["c05"].append(dict(case=case, what=f"a thread that was already waiting for the guard while lifetime {li} ended ({parts[0]}) never obtained a usable injector (it panicked or is still blocked after 3 s)"))
         if parts[0].startswith("panic"):
             for t in targets:
                 if ex.snap.get(t) != h["orig"].get(t):
@@ -266,6 +283,7 @@ def judge(hid, line, lifetimes, h, mline, synth_val, project="full"):
                 J["c01"].append(dict(case=case, what=f"process died ({h['child']}) inside the installation {ops[nxt]} (L{li} OP{nxt})"))
             break
     J["c01"] += [v for v in J["c02"] if v["what"].startswith("while installed")]
+    J["c03"] += [v for v in J["c02"] if v["what"].startswith("while installed") and v.get("unnamed")]
     J["shape"] = (len(lifetimes), tuple(sorted(set(op.split(":")[0] + ":" + (op.split(":")[2] if op.startswith("I:") else "") for ops in lifetimes for op in ops))),
                   any(len([o for o in ops if o.startswith("I:") and o.split(":")[1] == t]) > 1 for ops in lifetimes for t in set(o.split(":")[1] for o in ops if o.startswith("I:"))))
     return J
